@@ -310,9 +310,16 @@ func TestVerifC05Placement(t *testing.T) {
 			c.KeyCols[0] = rapid.SampledFrom([]progen.Col{progen.TInt, progen.TString, progen.TInt64}).Draw(rt, "foldkey")
 		}
 		nkeys := rapid.IntRange(1, 60).Draw(rt, "nkeys")
+		maxSel := 40
+		if rapid.IntRange(0, 5).Draw(rt, "many") == 0 {
+			// hundreds of distinct keys: a shard holds more keys than the 128-row buffers the merging
+			// operators refill from
+			nkeys = rapid.IntRange(150, 400).Draw(rt, "manykeys")
+			maxSel = 3000
+		}
 		seen := map[string]bool{}
 		for i := 0; i < nkeys; i++ {
-			k := rapid.SliceOfN(rapid.IntRange(0, 40), nk, nk).Draw(rt, "key")
+			k := rapid.SliceOfN(rapid.IntRange(0, maxSel), nk, nk).Draw(rt, "key")
 			// distinct as VALUES (some types wrap around or fold selectors)
 			vals := make([]interface{}, nk)
 			for j := range k {
